@@ -504,11 +504,15 @@ IO_TRUST = PROPS["C01"]["trusted"][:3] + [
     "hand-written Gallina model of serialize / CMapFile::try_from / build_2d_from_cmap_file at the level of lexed items (IO/CMapText.v)",
     "the lexical layer (trim, comments, brackets, split_whitespace, decimal and float Display/FromStr) is re-implemented by the harness lexer and exercised, not modelled"]
 PROPS["C09"] = dict(
-    level="translation_validation",
-    level_text="serialize and the text builder are modelled in Gallina at the level of lexed items and compared with the implementation "
-               "(lexed text, rebuilt map, second serialization) on histories producing open/closed cells, isolated and removed "
-               "darts, undefined vertices; the round-trip statement is an executable Coq predicate applied to every implementation "
-               "observation, byte equality of the two texts being decided on the implementation itself",
+    level="proof",
+    level_text="Coq theorem C09_roundtrip_items: for EVERY well-formed 2-map below 2^32 slots (any removed darts, vertices defined "
+               "or not) the Gallina transcription of build_2d_from_cmap_file applied to the items the transcription of serialize "
+               "writes succeeds and returns the same images, removal flags and vertex coordinates -- under two stated hypotheses "
+               "about the lexical layer (a printed coordinate reads back as itself, a vertex is rebuilt from its coordinates). Tie: "
+               "serialize and the builder are compared with the implementation at the level of lexed items (lexed text, rebuilt "
+               "map, second serialization) on histories with open / closed cells, isolated and removed darts, undefined "
+               "vertices; the round-trip predicate is also applied to every implementation observation, byte equality of the "
+               "two texts being decided on the implementation itself. The text layout (columns, comments) is below the model",
     technique="Coq model at item level + correspondence + extracted round-trip oracle",
     families=[
         Family("io2-random", "core2", lambda tier, seed: ["--mode", "random", "--cases", str({"quick": 1500, "thorough": 30000}[tier]),
